@@ -196,12 +196,19 @@ pub fn topic_name_bad_len3(value: &str) -> bool {
 /// validator itself is decided by the C16 unit harnesses over all Unicode scalars
 #[cfg(kani)]
 pub fn topic_filter_class_stub(value: &str) -> (bool, u16) {
+    if value.len() == 0 {
+        // the empty filter is invalid whatever its (absent) content: constant verdict of a concrete length
+        return (true, 0);
+    }
     kani::assume(plain_filter_bytes_ok(value.as_bytes()));
     (false, 0)
 }
 
 #[cfg(kani)]
 pub fn topic_filter_bad_len3(value: &str) -> (bool, u16) {
+    if value.len() == 0 {
+        return (true, 0);
+    }
     if value.len() == BAD_LEN {
         kani::assume(!plain_filter_bytes_ok(value.as_bytes()));
         (true, 0)
